@@ -9,6 +9,14 @@ pub mod triaxial;
 
 use crate::prelude::*;
 
+/// The built-in ellipsoid table as (name, a, ax, rf, description) (read-only hook
+/// for verification harnesses)
+#[cfg(feature = "verif_hooks")]
+pub(crate) fn verif_ellipsoid_table(
+) -> Vec<(&'static str, &'static str, &'static str, &'static str, &'static str)> {
+    constants::ELLIPSOID_LIST.to_vec()
+}
+
 // Blanket implementations for all the Ellipsoidal traits
 impl<T> Meridians for T where T: EllipsoidBase + ?Sized {}
 impl<T> Latitudes for T where T: EllipsoidBase + ?Sized {}
